@@ -66,6 +66,22 @@ def one_script(ctx, r, depth, big=0):
             if strip_times(extra) != strip_times(own[:len(extra)]):
                 ctx.violation("C03 foreign events after %s in %s" % (fault, label), "events appeared that the interrupted command would not have written", {"trace": trace}); return
             # 3. a later mutation succeeds, takes effect, and the store stays readable
+            # (a rewrite first, one time in three: compact/plan go through plans.jsonl.tmp, which the crashed command may have left behind)
+            if r.p(34):
+                rw = r.pick([{"argv": ["--json", "compact"], "stdin": None}, {"argv": ["--json", "plan"], "stdin": json.dumps({"title": "p%d" % d, "tasks": [{"title": "only"}]})}])
+                rw["env"] = {"VERIF_RAND": str(r.next() % (1 << 40))}
+                rr = st.exec(rw["argv"], None if rw["stdin"] is None else rw["stdin"].encode(), env=rw["env"])
+                trace.append(rw)
+                prob = crash.reads_ok(st)
+                gx = st.graph()
+                if rr["exit"] != 0 or prob or "err" in gx:
+                    ctx.violation("C03 store bricked by a rewrite (%s) after %s" % (rw["argv"][1], fault) if (prob or "err" in gx) else "C03 mutation fails after %s in %s" % (fault, label),
+                                  prob or gx.get("err", "") [:200] or "%s exits %s: %s" % (rw["argv"][1], rr["exit"], rr["stderr"].strip()[:200]), {"trace": trace}); return
+                if any(not oracles.task_of(gx["graph"], t["id"]) for t in g1["graph"]["tasks"]):
+                    ctx.violation("C03 items lost by the mutation after %s" % fault, "items visible after the crash disappeared with the %s that followed" % rw["argv"][1], {"trace": trace}); return
+                if rw["argv"][1] == "compact" and crash.timeless(gx["graph"]) != crash.timeless(g1["graph"]):
+                    ctx.violation("C03 compact after %s changed what the store shows" % fault, str(fndiff.first_difference(crash.timeless(g1["graph"]), crash.timeless(gx["graph"])))[:300], {"trace": trace}); return
+                g1 = gx
             nxt = {"argv": ["--json", "new", "task"], "stdin": json.dumps({"title": "after crash %d" % d}), "env": {"VERIF_RAND": str(r.next() % (1 << 40))}}
             rr = st.exec(nxt["argv"], nxt["stdin"].encode(), env=nxt["env"])
             trace.append(nxt)
@@ -84,12 +100,64 @@ def one_script(ctx, r, depth, big=0):
         st.close()
 
 
+def stale_tmp(ctx, r):
+    """plan / compact killed at every call from the first write of plans.jsonl.tmp on (the temporary file is left behind, complete or not); then a
+    rewrite whose content is shorter than that leftover, then an append: nothing of the leftover may end up in the log"""
+    base, v, trace = crash.build_state(ctx, r, 8 + r.n(6), weights={"new_task": 40, "set": 45, "sequence": 10, "new_epic": 5})
+    try:
+        g0 = base.graph()
+        if "err" in g0:
+            return
+        big_plan = json.dumps({"title": "big plan", "tasks": [{"title": "step %d" % i, "body": "words " * 40} for i in range(25)]}).encode()
+        for label, argv, stdin in (("plan", ["--json", "plan"], big_plan), ("compact", ["--json", "compact"], None)):
+            env = {"VERIF_RAND": str(r.next() % (1 << 40))}
+            twin = crash.clone(base)
+            try:
+                rc, _, _, steps = strace.run(twin, argv, stdin, env=env)
+            finally:
+                twin.close()
+            pts = strace.kill_points(steps)
+            first = next((i for i, s_ in enumerate(steps) if s_["obj"] == "tmp"), None)
+            if rc != 0 or first is None:
+                continue
+            for k in range(first + 1, len(pts) + 1):
+                c = crash.clone(base)
+                try:
+                    strace.kill_at(c, argv, stdin, pts[k - 1], env=env)
+                    t2 = trace + [{"argv": argv, "stdin": None if stdin is None else "<plan of 25 tasks>", "env": env, "kill_point": list(pts[k - 1]), "kill_before_call": k}]
+                    ctx.count(1, key=("stale-tmp", label, strace.summarize(steps[:k])[-1] if k > 1 else "-"))
+                    g1 = c.graph()
+                    if "err" in g1 or crash.reads_ok(c):
+                        ctx.violation("C03 reads fail after kill in %s" % label, crash.reads_ok(c) or g1.get("err", "")[:200], {"trace": t2}); return
+                    rr = c.exec(["--json", "compact"])
+                    t2.append({"argv": ["--json", "compact"], "stdin": None})
+                    prob = crash.reads_ok(c)
+                    g2 = c.graph()
+                    if rr["exit"] != 0 or prob or "err" in g2:
+                        ctx.violation("C03 store bricked by a rewrite (compact) after kill" if (prob or "err" in g2) else "C03 mutation fails after kill in %s" % label,
+                                      prob or g2.get("err", "")[:200] or "compact exits %s: %s" % (rr["exit"], rr["stderr"].strip()[:200]), {"trace": t2}); return
+                    if crash.timeless(g2["graph"]) != crash.timeless(g1["graph"]):
+                        ctx.violation("C03 compact after kill changed what the store shows", "leftover of the killed %s surfaced: %s" % (label, str(fndiff.first_difference(crash.timeless(g1["graph"]), crash.timeless(g2["graph"])))[:300]),
+                                      {"trace": t2}); return
+                    rr = c.exec(["--json", "new", "task"], b'{"title":"after"}')
+                    t2.append({"argv": ["--json", "new", "task"], "stdin": '{"title":"after"}'})
+                    prob = crash.reads_ok(c)
+                    if rr["exit"] != 0 or prob:
+                        ctx.violation("C03 store bricked by a mutation after kill", prob or rr["stderr"].strip()[:200], {"trace": t2}); return
+                finally:
+                    c.close()
+    finally:
+        base.close()
+
+
 def run(ctx):
     framework.check_facts(ctx, ctx.facts, ["with_lock", "writer_calls"])
     r = gen.Rng(ctx.seed * 1000003 + 3)
     for i in range(16 if ctx.quick else 250):
         # every third script runs on a log spanning several 64 KiB blocks (the tail repair scans backwards in blocks)
         one_script(ctx, r.fork(), 3 if ctx.quick else 5, big=([0, 0, 130, 0, 0, 260][i % 6]))
+    for i in range(2 if ctx.quick else 25):
+        stale_tmp(ctx, r.fork())
     # the byte-level writer (tail repair + append) against the Lean storage model, incl. lines longer than the 64 KiB scan block
     from . import c12
     c12.storage_tie(ctx, ctx.seed + 300, 300 if ctx.quick else 4000, prop="C03")
